@@ -481,7 +481,7 @@ impl Property for C07 {
     fn cases(tier: Tier) -> u32 {
         match tier {
             Tier::Quick => 96,
-            Tier::Thorough => 1600,
+            Tier::Thorough => 6000,
         }
     }
 
